@@ -332,7 +332,7 @@ def dump_one(f: TextIO, data: IOData):
     atcoords = data.atcoords / angstrom
     f.write("$COORD\n")
     for n, coord in zip(data.atnums, atcoords):
-        f.write(f"   {n:d}   {coord[0]: ,.6f}  {coord[1]: ,.6f}  {coord[2]: ,.6f}\n")
+        f.write(f"   {n:d}   {coord[0]: .6f}  {coord[1]: .6f}  {coord[2]: .6f}\n")
     f.write("$END\n")
     f.write("\n")
 
@@ -340,7 +340,7 @@ def dump_one(f: TextIO, data: IOData):
     if "mulliken" in data.atcharges:
         f.write("$CHARGES\n")
         for charge in data.atcharges["mulliken"]:
-            f.write(f"  {charge: ,.6f}\n")
+            f.write(f"  {charge: .6f}\n")
         f.write("$END\n")
         f.write("\n")
 
